@@ -32,7 +32,7 @@ def run(ctx):
 
 # ---------------------------------------------------------------- build_plan
 def plan_rules(ctx, F, rid):
-    ctx.rule(rid, 'build_plan: transfer/skipped/delete membership, whole-map loops, sorted output', floor=6)
+    ctx.rule(rid, 'build_plan: transfer/skipped/delete membership, whole-map loops, sorted output', floor=5)
     b = F.body('plan::build_plan')
     if b is None:
         ctx.missing(rid, 'plan::build_plan')
@@ -222,7 +222,7 @@ def needs_transfer_rule(ctx, F, rid):
 
 # ---------------------------------------------------------------- is_excluded
 def excluded_rules(ctx, F, rid):
-    ctx.rule(rid, 'is_excluded dispatch / glob_match metacharacter precedence', floor=6)
+    ctx.rule(rid, 'is_excluded dispatch / glob_match metacharacter precedence', floor=4)
     b = F.body('plan::is_excluded')
     if b is None:
         ctx.missing(rid, 'plan::is_excluded')
@@ -352,7 +352,7 @@ def glob_rules(ctx, F, rid, key_prefix='glob_match'):
             for (mb, ml, mop) in meta[ch]:
                 oc = fl.outcomes(None, ml)
                 ne_edges_m = oc.get('false' if mop == 'Eq' else 'true', set())
-                if ne_edges_m and cfg.edges_guard(ne_edges_m, lb):
+                if ne_edges_m and fl.edges_guard_correlated(ne_edges_m, lb):
                     ne_edges |= ne_edges_m
             ctx.check(bool(ne_edges), rid, '%s:literal-after-%s' % (key_prefix, 'star' if ch == ord('*') else 'qmark'),
                       'the literal comparison is reached only when the pattern character is not %r' % chr(ch),
